@@ -75,13 +75,18 @@ theorem mem_push {gaps : List (List Gap)} {gi i : Nat} {g0 x : Gap} :
   · rename_i h; subst h; simp
   · rename_i h; simp [h]
 
-theorem addGap_spec (t : List (List Node)) (size : Nat) : ∀ (gaps : List (List Gap)) (offset : Nat),
+theorem addGapAux_spec (t : List (List Node)) : ∀ (fuel : Nat) (gaps : List (List Gap)) (offset size : Nat), size ≤ fuel →
     GapInv gaps t offset → (∀ j n, NS t j n → n.offset + 2 ^ j ≤ offset) →
-    GapInv (addGap gaps offset size) t (offset + size) := by
-  induction size using Nat.strongRecOn with
-  | _ size ih =>
-    intro gaps offset hg hn
-    rw [addGap]
+    GapInv (addGapAux fuel gaps offset size) t (offset + size) := by
+  intro fuel
+  induction fuel with
+  | zero =>
+    intro gaps offset size hf hg _
+    have : size = 0 := by omega
+    subst this; simp only [addGapAux]; exact hg
+  | succ fuel ih =>
+    intro gaps offset size hf hg hn
+    rw [addGapAux]
     by_cases h0 : size = 0
     · simp [h0]; exact hg
     · simp only [h0, if_false]
@@ -114,9 +119,14 @@ theorem addGap_spec (t : List (List Node)) (size : Nat) : ∀ (gaps : List (List
           · rcases mem_push.1 hb with ⟨rfl, rfl⟩ | hb'
             · left; exact (hg.geom _ a ha').2.2
             · exact hg.cross i j hij a ha' b hb'
-      have := ih (size - gs) (by omega) _ (offset + gs) key (fun j n hns => by have := hn j n hns; omega)
+      have := ih _ (offset + gs) (size - gs) (by omega) key (fun j n hns => by have := hn j n hns; omega)
       have he : offset + gs + (size - gs) = offset + size := by omega
       rw [he] at this; exact this
+
+theorem addGap_spec (t : List (List Node)) (size : Nat) (gaps : List (List Gap)) (offset : Nat)
+    (hg : GapInv gaps t offset) (hn : ∀ j n, NS t j n → n.offset + 2 ^ j ≤ offset) :
+    GapInv (addGap gaps offset size) t (offset + size) :=
+  addGapAux_spec t size gaps offset size (Nat.le_refl _) hg hn
 
 /-! ### the gap loop of `add` -/
 
